@@ -1,4 +1,5 @@
 import Gp.Lemmas.PoolAsm
+import Gp.Lemmas.PoolReasm
 /-
   C12 — Assemblers sharing one stream pool are safe under every interleaving.
 
@@ -64,5 +65,127 @@ theorem no_deadlock' (progs : Tid → List Op) (s : State) (h : (sys progs).Reac
   · exact ⟨t, h1⟩
   · exact ⟨t', h2⟩
 
+/-! ### What is FALSE of tcpassembly as written: stale pointers to recycled connection objects -/
+
+/-- right_stream at full strength: in every reachable state every delivered/queued packet went to a
+    stream created for its own key.  FALSE for the code as written (see the counterexample). -/
+def right_stream_full : Prop :=
+  ∀ (progs : Tid → List Op) (s : State), (sys progs).Reachable s → RightStream s
+
+/-- Goroutine 0 assembles a SYN of key 0a; goroutine 1 runs FlushAll, then assembles a SYN of key 0b. -/
+def cxProgs : Tid → List Op
+  | 0 => [.pkt ⟨0, false⟩ .syn]
+  | 1 => [.flush, .pkt ⟨0, true⟩ .syn]
+  | _ => []
+
+/-- 0 creates the connection for 0a and stops before `conn.mu.Lock()`; 1's FlushAll closes it and
+    returns it to `free`; 1 then creates the connection for 0b, which recycles the object (`reset`
+    clears `closed`); 0 locks the object, sees `closed == false` and delivers 0a's packet to 0b's stream. -/
+def cxSched : List Tid := [0, 0, 1, 1, 1, 1, 1, 0]
+
+theorem right_stream_counterexample : ¬ right_stream_full := by
+  intro h
+  have hsome : (Sys.runStrict (sys cxProgs) (sys cxProgs).init cxSched).isSome = true := by decide
+  have hr := Sys.reachable_of_run (sys cxProgs) cxSched hsome
+  have h1 := (h cxProgs _ hr).1 1 0 0 ⟨0, false⟩ 1 (by decide)
+  revert h1; decide
+
 end Asm
+/-! ## reassembly -/
+namespace Reasm
+open Gp.Pool.Reasm
+
+/-- map_unique: one entry per key, and the two directions of a connection are never both keys of the
+    map: both directions attach to ONE entry however their first packets race (holds with and without
+    the fix: upstream panics instead of inserting). -/
+theorem map_unique (fixed : Bool) (progs : Tid → List Op) (s : State) (h : (sys fixed progs).Reachable s) :
+    (KMap.keys s.conns).Nodup ∧ ∀ k, s.conns.get k ≠ none → s.conns.get k.rev = none :=
+  ⟨keys_nodup_reachable fixed progs s h, oneDir_reachable fixed progs s h⟩
+
+/-- no_panic at full strength for the code AS WRITTEN upstream (`fixed = false`). -/
+def no_panic_upstream_full : Prop :=
+  ∀ (progs : Tid → List Op) (s : State), (sys false progs).Reachable s → ∀ t, (s.thr t).pc ≠ .panicked
+
+/-- Two assemblers, the first packets (SYN) of the two directions of one new connection. -/
+def cxProgs : Tid → List Op
+  | 0 => [.pkt ⟨0, false⟩ .syn]
+  | 1 => [.pkt ⟨0, true⟩ .syn]
+  | _ => []
+
+/-- Both miss under the read lock; 0 inserts under the write lock; 1's double-check finds the entry
+    through the reversed key: `panic("FIXME: other dir added in the meantime...")`. -/
+theorem no_panic_upstream_counterexample : ¬ no_panic_upstream_full := by
+  intro h
+  have hsome : (Sys.runStrict (sys false cxProgs) (sys false cxProgs).init [0, 1, 0, 1]).isSome = true := by decide
+  have hr := Sys.reachable_of_run (sys false cxProgs) [0, 1, 0, 1] hsome
+  have h1 := h cxProgs _ hr 1
+  revert h1; decide
+
+/-- With proposed_fixes/pool-1 (`fixed = true`) the same schedule attaches both directions to one entry. -/
+example : ((Sys.runStrict (sys true cxProgs) (sys true cxProgs).init [0, 1, 0, 1]).map
+    (fun s => (s.conns.length, decide ((s.thr 1).pc = .lock 0 true)))) = some (1, true) := by decide
+
+/-- Mutex invariant (fixed pool). -/
+theorem mutex_owner (progs : Tid → List Op) (s : State) (h : (sys true progs).Reachable s) (c : CId) (t : Tid) :
+    (s.obj c).mu = some t ↔ (∃ hb f, (s.thr t).pc = .cb c hb f) ∨ (s.thr t).pc = .rm c := by
+  rw [(invA_reachable progs s h).mu_iff c t]
+  cases hpc : (s.thr t).pc <;> simp [PC.holds]
+  all_goals exact fun e => e ▸ rfl
+
+/-- callbacks_exclusive: two threads are never inside a callback segment of the same connection object
+    (both halves share the connection mutex and the Stream). -/
+theorem callbacks_exclusive (progs : Tid → List Op) (s : State) (h : (sys true progs).Reachable s)
+    (t1 t2 : Tid) (c : CId) (hb1 hb2 f1 f2 : Bool)
+    (h1 : (s.thr t1).pc = .cb c hb1 f1) (h2 : (s.thr t2).pc = .cb c hb2 f2) : t1 = t2 := by
+  have hi := invA_reachable progs s h
+  have e1 := (hi.mu_iff c t1).2 (by simp [h1])
+  have e2 := (hi.mu_iff c t2).2 (by simp [h2])
+  rw [e1] at e2; exact Option.some.inj e2
+
+/-- no_panic (fixed pool): the FIXME panic is gone and no nil stream is ever dereferenced. -/
+theorem no_panic (progs : Tid → List Op) (s : State) (h : (sys true progs).Reachable s) (t : Tid) :
+    (s.thr t).pc ≠ .panicked :=
+  (invA_reachable progs s h).no_panic t
+
+theorem lock_order (progs : Tid → List Op) (s : State) (h : (sys true progs).Reachable s) (c c' : CId) (hb : Bool) (t : Tid)
+    (hm : (s.obj c).mu = some t) : (s.thr t).pc ≠ .lock c' hb := by
+  have := ((invA_reachable progs s h).mu_iff c t).1 hm
+  intro e; simp [e] at this
+
+/-- no_deadlock (fixed pool). -/
+theorem no_deadlock (progs : Tid → List Op) (s : State) (h : (sys true progs).Reachable s) (t : Tid)
+    (hnd : (s.thr t).done = false) :
+    step true s t ≠ none ∨ ∃ c hb t', (s.thr t).pc = .lock c hb ∧ (s.obj c).mu = some t' ∧ step true s t' ≠ none :=
+  progress (invA_reachable progs s h) t hnd
+
+theorem no_deadlock' (progs : Tid → List Op) (s : State) (h : (sys true progs).Reachable s)
+    (hnd : ∃ t, (s.thr t).done = false) : ∃ t', step true s t' ≠ none := by
+  obtain ⟨t, ht⟩ := hnd
+  rcases no_deadlock progs s h t ht with h1 | ⟨_, _, t', _, _, h2⟩
+  · exact ⟨t, h1⟩
+  · exact ⟨t', h2⟩
+
+/-! ### What is FALSE of reassembly (also after the fix): stale pointers to recycled connection objects -/
+
+def right_stream_full : Prop :=
+  ∀ (progs : Tid → List Op) (s : State), (sys true progs).Reachable s → RightStream s
+
+/-- Goroutine 1 looks the connection of pair 0 up and stops before `conn.mu.Lock()`; goroutine 0's
+    FlushAll closes and removes it, then 0 creates the connection of pair 1, recycling the object. -/
+def cx2Progs : Tid → List Op
+  | 0 => [.pkt ⟨0, false⟩ .syn, .flush, .pkt ⟨1, false⟩ .syn]
+  | 1 => [.pkt ⟨0, false⟩ .syn]
+  | _ => []
+
+def cx2Sched : List Tid := [0, 0, 0, 0, 1, 0, 0, 0, 0, 0, 1]
+
+theorem right_stream_counterexample : ¬ right_stream_full := by
+  intro h
+  have hsome : (Sys.runStrict (sys true cx2Progs) (sys true cx2Progs).init cx2Sched).isSome = true := by decide
+  have hr := Sys.reachable_of_run (sys true cx2Progs) cx2Sched hsome
+  have h1 := (h cx2Progs _ hr).1 1 1 0 ⟨0, false⟩ 1 (by decide)
+  revert h1; decide
+
+end Reasm
+
 end Gp.C12
